@@ -346,7 +346,7 @@ func c08Classify(pre, post []fsEnt, finalRel string, obj []byte) string {
 
 // c08CheckStore evaluates the predicate on the directory after a (killed) run and the membership of the
 // observed tree in the model's crash states.
-func c08CheckStore(a vh.Args, o *vh.Oracle, r *vh.Result, c *c08Case, dir string, reach map[string]bool) error {
+func c08CheckStore(a vh.Args, o *vh.Oracle, r *vh.Result, c *c08Case, dir string, reach *c08Sets, exit string) error {
 	post, err := snapshotTree(dir)
 	if err != nil {
 		return err
@@ -410,8 +410,15 @@ func c08CheckStore(a vh.Args, o *vh.Oracle, r *vh.Result, c *c08Case, dir string
 	if reach != nil {
 		r.Corr()
 		key := encodeTree("s", normTmp(post))
-		if !reach[key] {
-			c.What = "directory after the run is not among the model's crash states: " + key
+		set, what := reach.all, "crash states"
+		switch exit {
+		case "exit0": // StoreChunk returned nil
+			set, what = reach.ok, "states after every StoreChunk returned nil"
+		case "exit3": // StoreChunk returned an error
+			set, what = reach.failed, "states after StoreChunk returned an error"
+		}
+		if !set[key] {
+			c.What = fmt.Sprintf("directory after the run (child %s) is not among the model's %s: %s", exit, what, key)
 			r.Fail("corr", "corr:C08/crash-state", c.What, c)
 		}
 	}
@@ -419,7 +426,9 @@ func c08CheckStore(a vh.Args, o *vh.Oracle, r *vh.Result, c *c08Case, dir string
 }
 
 // c08Reach asks the oracle for the crash states of n writers of the chunk from tree pre.
-func c08Reach(o *vh.Oracle, c *c08Case, writers int) (map[string]bool, error) {
+type c08Sets struct{ all, ok, failed map[string]bool }
+
+func c08Reach(o *vh.Oracle, c *c08Case, writers int) (*c08Sets, error) {
 	if o == nil {
 		return nil, nil
 	}
@@ -439,15 +448,36 @@ func c08Reach(o *vh.Oracle, c *c08Case, writers int) (map[string]bool, error) {
 	if err != nil {
 		return nil, err
 	}
-	out := map[string]bool{}
-	for _, t := range strings.Split(ans, "|") {
-		ents, err := decodeTree("s", t)
-		if err != nil {
-			return nil, err
-		}
-		out[encodeTree("s", normTmp(ents))] = true
+	parts := strings.Split(ans, " ")
+	if len(parts) != 3 {
+		return nil, fmt.Errorf("c08.reach: bad answer")
 	}
-	return out, nil
+	conv := func(p string) (map[string]bool, error) {
+		out := map[string]bool{}
+		if p == "none" {
+			return out, nil
+		}
+		for _, t := range strings.Split(p, "|") {
+			ents, err := decodeTree("s", t)
+			if err != nil {
+				return nil, err
+			}
+			out[encodeTree("s", normTmp(ents))] = true
+		}
+		return out, nil
+	}
+	var sets c08Sets
+	var err2 error
+	if sets.all, err2 = conv(parts[0]); err2 != nil {
+		return nil, err2
+	}
+	if sets.ok, err2 = conv(parts[1]); err2 != nil {
+		return nil, err2
+	}
+	if sets.failed, err2 = conv(parts[2]); err2 != nil {
+		return nil, err2
+	}
+	return &sets, nil
 }
 
 func c08StoreSweep(a vh.Args, o *vh.Oracle, r *vh.Result, unc bool, data []byte, pre []fsEnt, tag string) error {
@@ -463,7 +493,7 @@ func c08StoreSweep(a vh.Args, o *vh.Oracle, r *vh.Result, unc bool, data []byte,
 		return err
 	}
 	if os.Getenv("VH_DEBUG") != "" {
-		fmt.Fprintf(os.Stderr, "reach %s: %d states %v\n", tag, len(reach), time.Since(t0))
+		fmt.Fprintf(os.Stderr, "reach %s: %v\n", tag, time.Since(t0))
 	}
 	prep := func() (string, error) {
 		dir, err := freshDir(a.Work, "c08")
@@ -494,7 +524,7 @@ func c08StoreSweep(a vh.Args, o *vh.Oracle, r *vh.Result, unc bool, data []byte,
 		return err
 	}
 	ops, points, mkdirs := storeOps(evs, dir)
-	if err := c08CheckStore(a, o, r, &c0, dir, reach); err != nil {
+	if err := c08CheckStore(a, o, r, &c0, dir, reach, exit); err != nil {
 		return err
 	}
 	if o != nil {
@@ -549,7 +579,7 @@ func c08StoreSweep(a vh.Args, o *vh.Oracle, r *vh.Result, unc bool, data []byte,
 		r.Count(fmt.Sprintf("store-kill|%s|%s|%d", tag, c.Syscall, c.K), strings.HasPrefix(exit, "signal"))
 		r.Dist("kill-at:" + c.Syscall)
 		r.Dist("child:" + exit)
-		if err := c08CheckStore(a, o, r, &c, dir, reach); err != nil {
+		if err := c08CheckStore(a, o, r, &c, dir, reach, exit); err != nil {
 			return err
 		}
 	}
@@ -581,7 +611,7 @@ func c08StoreSweep(a vh.Args, o *vh.Oracle, r *vh.Result, unc bool, data []byte,
 			if exit == "exit0" {
 				r.Fail("predicate", "store/short-write-reports-success", fmt.Sprintf("StoreChunk returned nil although the file size limit %d is below the object size %d", l, objLen), &c)
 			}
-			if err := c08CheckStore(a, o, r, &c, dir, reach); err != nil {
+			if err := c08CheckStore(a, o, r, &c, dir, reach, exit); err != nil {
 				return err
 			}
 		}
@@ -607,7 +637,7 @@ func c08StoreSweep(a vh.Args, o *vh.Oracle, r *vh.Result, unc bool, data []byte,
 				}
 				r.Count(fmt.Sprintf("store-fsize-kill|%s|%d", tag, l), strings.HasPrefix(exit, "signal"))
 				r.Dist("child-fsize-kill:" + exit)
-				if err := c08CheckStore(a, o, r, &c, dir, reach); err != nil {
+				if err := c08CheckStore(a, o, r, &c, dir, reach, exit); err != nil {
 					return err
 				}
 				break
@@ -638,7 +668,7 @@ func c08TwoWriters(a vh.Args, o *vh.Oracle, r *vh.Result, unc bool, data []byte,
 			}
 			r.Count(fmt.Sprintf("store-2writers|%v|%s|%d|%d", unc, sc, k, len(data)), strings.HasPrefix(exit, "signal"))
 			r.Dist("child-2w:" + exit)
-			if err := c08CheckStore(a, o, r, &c, dir, reach); err != nil {
+			if err := c08CheckStore(a, o, r, &c, dir, reach, exit); err != nil {
 				return err
 			}
 		}
@@ -739,7 +769,7 @@ func c08Replay(a vh.Args, o *vh.Oracle, r *vh.Result, c *c08Case) error {
 		}
 		r.Note("child: %s", exit)
 		r.Count("replay", true)
-		return c08CheckStore(a, o, r, c, dir, reach)
+		return c08CheckStore(a, o, r, c, dir, reach, exit)
 	case "extract-kill", "extract-inplace":
 		return c08ExtractCase(a, r, c)
 	}
